@@ -88,3 +88,20 @@ def speed_heading_body(msg):
         assert o == ("ret", None), "speed_heading is None when no velocity is available"
     else:
         assert o[0] == "ret" and o[1][0] == ov[1][0] and o[1][1] == ov[1][1], "speed_heading == first two components of velocity"
+
+
+@harness("C09", inputs={}, kind="table",
+         note="discharges the floating-point step of the ground-speed clause that the real-arithmetic proof of "
+              "airborne_velocity_body leaves open: sqrt is uninterpreted there, so int(math.sqrt(v)) must be the "
+              "integer square root for every reachable v.  Exhaustive over all |component| 0..1022 (x4 supersonic).")
+def binary64_sqrt_floor_is_isqrt_on_every_reachable_speed():
+    import math
+    n = 0
+    for scale in (1, 4):
+        for a in range(0, 1023):
+            aa = (a * scale) * (a * scale)
+            for b in range(a, 1023):
+                v = aa + (b * scale) * (b * scale)
+                assert int(math.sqrt(v)) == math.isqrt(v), "int(math.sqrt(v)) == floor(sqrt(v)) for v = %d" % v
+                n += 1
+    assert n == 2 * 1023 * 1024 // 2, "all component pairs visited"
